@@ -1591,7 +1591,7 @@ func TestC30(t *testing.T) {
 		"{default, ask-handover, block-item; ok/err} from the handler, read eagerly or deferred, response heads through ReadResponseHead or ReadBody; " +
 		"client and handler brokers joined by two in-memory streams with chunkings {whole,1-byte,cuts 1..7,cuts 1..64}x{EOF with data, EOF after}. " +
 		"B (hostile): the bytes one side wrote, mutated {none, every/drawn truncation, byte flip, hostile length word, type byte, header JSON field " +
-		"deleted/retyped/re-hinted to any registered hint, encoder hint, inserted garbage}, fed to the other side's read calls. " +
+		"deleted/retyped/re-hinted to any registered hint, encoder hint, inserted garbage}, fed to the other side's read calls (1 in 6: to the wrong side's). " +
 		"non-trivial: A: >=2 messages, a non-empty body, and its stream chunked below 8 bytes; B: any mutated stream; distinct by (transcript, chunking, mutation)")
 	r.Floor(100)
 	r.Assume("request/response headers are valid (callers run IsValid before writing) and fixed-length bodies are written with their true length",
@@ -1627,6 +1627,19 @@ func TestC30(t *testing.T) {
 			if side == 0 {
 				r.Sample(map[string]any{"mode": "maxalloc", "stream": c30Short(raw)})
 			}
+		}
+	})
+
+	// ---- deterministic: the seed corpus of the native fuzz target (valid streams and hostile constants)
+	t.Run("seeds", func(t *testing.T) {
+		for i, s := range c30Seeds(env) {
+			if !r.Mine(i) {
+				continue
+			}
+
+			c30Journal(r, "seed", s)
+			c30FuzzOne(t, r, env, s)
+			r.CaseN(1, 1, "mode:fuzz-seed")
 		}
 	})
 
@@ -1719,11 +1732,20 @@ func TestC30(t *testing.T) {
 		}
 		mut := c30Mutate(rt, env, raw)
 
+		// cross feeding: what a handler would write is sent to a handler (and the other way round)
+		readSide := side
+		if rapid.IntRange(0, 5).Draw(rt, "cross") == 0 {
+			readSide = 1 - side
+			mut.Valid = false
+			mut.Kind = "cross+" + mut.Kind
+			mut.Name = "cross+" + mut.Name
+		}
+
 		if !mut.Valid && rapid.IntRange(0, 3).Draw(rt, "randomPattern") == 0 {
 			pattern = uint(rapid.IntRange(0, 255).Draw(rt, "pattern"))
 		}
 
-		classes := []string{"mode:hostile", "mutation:" + mut.Kind, fmt.Sprintf("side:%d", side), "chunk:" + ch.Name}
+		classes := []string{"mode:hostile", "mutation:" + mut.Kind, fmt.Sprintf("side:%d", readSide), "chunk:" + ch.Name}
 		seen := map[string]bool{}
 
 		for _, v := range mut.Variants {
@@ -1733,9 +1755,9 @@ func TestC30(t *testing.T) {
 				continue
 			}
 
-			c30Journal(r, fmt.Sprintf("hostile side=%d chunk=%s%v pattern=%d", side, ch.Name, ch.Cuts, pattern), v)
+			c30Journal(r, fmt.Sprintf("hostile side=%d chunk=%s%v pattern=%d", readSide, ch.Name, ch.Cuts, pattern), v)
 
-			res := c30Hostile(rt, r, env, side, v, ch, pattern)
+			res := c30Hostile(rt, r, env, readSide, v, ch, pattern)
 
 			if mut.Valid && (res.Err != "" && res.Msgs < nmsgs) {
 				r.Violation(rt, "valid-stream-rejected", "an unmodified %d-message stream (%s, side %d) was rejected after %d messages: %s [chunking %s %v]",
@@ -1759,12 +1781,12 @@ func TestC30(t *testing.T) {
 			}
 		}
 
-		fp := fmt.Sprintf("h|%d|%s|%s%v%v|%s|%d", side, tr.desc(), ch.Name, ch.Cuts, ch.EOFTog, mut.Name, pattern)
+		fp := fmt.Sprintf("h|%d|%s|%s%v%v|%s|%d", readSide, tr.desc(), ch.Name, ch.Cuts, ch.EOFTog, mut.Name, pattern)
 		r.Case(fp, !mut.Valid, classes...)
 
 		if !mut.Valid && samples < 2 && r.WantSample() {
 			samples++
-			r.Sample(map[string]any{"mode": "hostile", "side": side, "from": tr.desc(), "mutation": mut.Name, "chunking": ch, "stream_bytes": len(raw)})
+			r.Sample(map[string]any{"mode": "hostile", "read_by_side": readSide, "from": tr.desc(), "mutation": mut.Name, "chunking": ch, "stream_bytes": len(raw)})
 		}
 	})
 }
@@ -1821,6 +1843,8 @@ func c30Seeds(env *c30Env) (seeds [][]byte) {
 			raw, pattern, _ := c30Record(tb, r, env, tr, side)
 			add(side, byte(pattern<<3)&0x78, raw)
 			add(side, byte(pattern<<3)&0x78|1, raw) // 1-byte chunks
+			add(1-side, 0, raw)                     // sent to the wrong kind of reader
+			add(1-side, 0x78, raw)
 
 			lay := c30Walk(raw)
 
